@@ -6,6 +6,7 @@ import z3
 
 from pvx import loopcut
 from pvx.harness import Ob
+from pvx.npproxy import alias_update as _alias_update
 from pvx.loader import load
 from pvx.sym import Concretization
 from pvx.zdomain import ZCtx, ZSym, _z, zmin, zmax, OPAQUE, Stop, ObligationFailed, explore_z, zctx
@@ -213,11 +214,11 @@ def scenario(py, code, mode, results):
         return inc
     ns = dict(F.__dict__)
     hooks.kalman = sched.KalmanStub()
-    ns.update(__pvx=hooks, np=sched.ZNp(w), pd=OPAQUE, kalman=hooks.kalman, transform=OPAQUE, earth=OPAQUE, Rotation=OPAQUE,
+    _alias_update(ns, F.__dict__, dict(__pvx=hooks, np=sched.ZNp(w), pd=OPAQUE, kalman=hooks.kalman, transform=OPAQUE, earth=OPAQUE, Rotation=OPAQUE,
               util=cap, strapdown=StrapNS, inertial_sensor=InertialNS, InsErrorModel=lambda wa=True: OPAQUE,
               _correct_increments=correct_increments, _initialize_covariance=lambda *a, **k: OPAQUE,
               _compute_error_propagation_matrices=lambda *a, **k: (OPAQUE, OPAQUE), _compute_sd=lambda *a, **k: (OPAQUE, OPAQUE, OPAQUE),
-              _interpolate_pva=lambda *a, **k: OPAQUE, min=zmin, max=zmax, len=sched.zlen)
+              _interpolate_pva=lambda *a, **k: OPAQUE, min=zmin, max=zmax, len=sched.zlen))
     fn, _ = loopcut.instantiate(F.run_feedback_filter, code, ns)
     status = "ok"
     try:
